@@ -3,6 +3,7 @@
 package main
 
 import (
+	"bytes"
 	"errors"
 	"fmt"
 	"io"
@@ -85,6 +86,92 @@ func init() {
 							}
 							o.Case("prop:write-fault", r, sn, fmt.Sprint(l.v), l.nl, fmt.Sprint(k), fmt.Sprint(short), fmt.Sprint(sw))
 						}
+					}
+				}
+			}
+		}
+	}
+
+	// C06 over a sequence: read a valid file, edit it through its exported fields so that validation
+	// rejects it, write it - the writer must refuse and deliver nothing, in every layout
+	streams["l5-edits"] = func(o *Out, rng *Rng, thorough bool) {
+		texts := sampleTexts()
+		var names []string
+		for n := range texts {
+			names = append(names, n)
+		}
+		sort.Strings(names)
+		edits := []struct {
+			name string
+			do   func(f *wire.File) bool
+		}{
+			{"zero-amount", func(f *wire.File) bool {
+				if f.FEDWireMessage.Amount == nil {
+					return false
+				}
+				f.FEDWireMessage.Amount.Amount = "000000000000"
+				return true
+			}},
+			{"bad-sender-name", func(f *wire.File) bool {
+				if f.FEDWireMessage.SenderDepositoryInstitution == nil {
+					return false
+				}
+				f.FEDWireMessage.SenderDepositoryInstitution.SenderShortName = "Bad*Name"
+				return true
+			}},
+			{"switch-business-function", func(f *wire.File) bool {
+				if f.FEDWireMessage.BusinessFunctionCode == nil {
+					return false
+				}
+				if f.FEDWireMessage.BusinessFunctionCode.BusinessFunctionCode == "BTR" {
+					f.FEDWireMessage.BusinessFunctionCode.BusinessFunctionCode = "CTP"
+				} else {
+					f.FEDWireMessage.BusinessFunctionCode.BusinessFunctionCode = "BTR"
+				}
+				return true
+			}},
+			{"drop-type-subtype", func(f *wire.File) bool { f.FEDWireMessage.TypeSubType = nil; return true }},
+			{"drop-amount", func(f *wire.File) bool { f.FEDWireMessage.Amount = nil; return true }},
+			{"bad-amount", func(f *wire.File) bool {
+				if f.FEDWireMessage.Amount == nil {
+					return false
+				}
+				f.FEDWireMessage.Amount.Amount = "12345X"
+				return true
+			}},
+		}
+		for _, n := range names {
+			for _, opts := range []*wire.ValidateOpts{nil, {AllowMissingSenderSupplied: true}, {SkipMandatoryIMAD: true, AllowMissingSenderSupplied: true}} {
+				for _, e := range edits {
+					var f wire.File
+					var err error
+					if opts == nil {
+						f, err = wire.NewReader(strings.NewReader(texts[n])).Read()
+					} else {
+						f, err = wire.NewReader(strings.NewReader(texts[n])).ReadWithOpts(opts)
+					}
+					if err != nil || !e.do(&f) {
+						continue
+					}
+					if f.Validate() == nil {
+						continue // the edit left the message valid: nothing to refuse
+					}
+					for _, l := range layouts6 {
+						var buf bytes.Buffer
+						var werr error
+						pn, _ := protect(func() {
+							werr = wire.NewWriter(&buf, wire.VariableLengthFields(l.v), wire.NewlineCharacter(l.nl)).Write(&f)
+						})
+						res := "same"
+						switch {
+						case pn:
+							res = "differ:panic"
+						case werr == nil:
+							res = fmt.Sprintf("differ:Write accepted a message that validation rejects (%d bytes written)", buf.Len())
+						case buf.Len() > 0:
+							res = fmt.Sprintf("differ:Write refused but %d bytes reached the destination", buf.Len())
+						}
+						o.Case("prop:write-after-edit", res, n, optsArg(opts), e.name, fmt.Sprint(l.v), l.nl)
 					}
 				}
 			}
